@@ -39,7 +39,12 @@ RULE = ("cases are drawn from random.Random(VERIF_SEED). Scalar handles: every o
         "matrices, subscript matrix, value / weight / correction vectors) in Fortran-contiguous, C-contiguous, permuted-axes-view "
         "and strided-view layouts (1-d: contiguous, strided, negative stride) with non-constant, non-symmetric values and 0/1 "
         "masks on the non-cubical shapes (2,3), (3,1,2), (2,3,2), all layout combinations enumerated, also through "
-        "gcp_opt(LBFGSB, mask = ndarray | tensor) with an optimiser stand-in that evaluates once; and a malformed stream (mismatched shapes, no handle, "
+        "gcp_opt(LBFGSB, mask = ndarray | tensor) with an optimiser stand-in that evaluates once; the sampled estimator with sample "
+        "weights ones / integers of both signs / halves / 0-1 / all zero / all negative, repeated subscripts (adjacent and far apart), "
+        "correction ranges none / empty / partial / full / with repeated positions, models with unit and non-unit weights, every "
+        "gradient entry of every mode against the defining sums and the specification executed in Lean; 0/1 masks keeping all / "
+        "some / one / no entries as float / int / bool arrays in every layout, models with non-unit weights, dense and sparse data, "
+        "also with five real built-in pairs in doubles; and a malformed stream (mismatched shapes, no handle, "
         "out-of-range subscripts). A case is non-trivial when the implementation accepts it and at least one data / "
         "model entry is non-zero; distinct = distinct case hash")
 ASSUMPTIONS = [
@@ -48,11 +53,17 @@ ASSUMPTIONS = [
     "evaluate/estimate are modelled where NumPy combines arrays entry by entry: data, weights and model of one shape "
     "(broadcastable mismatches are not generated); ktensor.full enters as the denotation of the Kruskal tensor (C01) and "
     "tensor.mttkrps as the defining sum (C02) — both are nevertheless exercised here on the real code",
-    "estimate is modelled on the path without re-normalisation (lambda_check False or unit model weights)",
+    "estimate is modelled on the path without re-normalisation (lambda_check False or unit model weights); there it never reads "
+    "the model's weight vector (C12_estimate_ignores_model_weights), so its theorems are stated for unit model weights",
+    "at a switching point of a loss as it is written (|·| / sign / sqrt at 0, a comparison at equality) the symbolic derivative "
+    "of the generated expression is not compared; the gradient handle is compared with both one-sided difference quotients of "
+    "the Python loss there (the theorems cover these points: Huber kink, closed form of a stabilised softplus)",
     "finite differences (5-point, relative step 1e-3) are only an independent second opinion; the decisive comparison is "
     "gradient handle vs the verified symbolic derivative of the translated loss",
 ]
-TRUSTED_EXTRA = ["harness/translate/gen_handles.py: reading of ~15 Python AST node kinds (cross-checked on a grid each run)"]
+TRUSTED_EXTRA = ["harness/translate/gen_handles.py: reading of ~25 Python AST node kinds / NumPy functions and the symbolic "
+                 "execution of fg_setup.setup (cross-checked on a grid each run: generated table cells vs the callables setup "
+                 "returns; tools/handles_rewrites_selftest.py)"]
 EXHAUSTIVE = {"quick": False, "thorough": False}
 
 
@@ -407,12 +418,20 @@ class SymbolicDerivative(Family):
                     sym = _json.loads(pr.stdout)
             except Exception:  # noqa: BLE001
                 sym = [None] * len(cases)
-        models = drive(expr_requests([(grad_name(c["obj"]), False, c["x"], c["p"], c["m"]) for c in cases]))
+        models2 = drive(expr_requests([it for c in cases for it in
+                                       ((grad_name(c["obj"]), False, c["x"], c["p"], c["m"]),
+                                        (loss_name(c["obj"]), False, c["x"], c["p"], c["m"]))]))
+        models, losses = models2[0::2], models2[1::2]
         out = []
-        for c, sv, mo in zip(cases, sym, models):
+        for c, sv, mo, lo in zip(cases, sym, models, losses):
             tags = [c["obj"]]
             if sv is None or mo is None:
                 out.append(Verdict("ok", "", None, None, None, tags + ["sympy-unavailable"], False))
+                continue
+            if lo is not None and len(lo[0]) > 2 and lo[0][2]:
+                # a switching point of the loss as written (|·| / sign / sqrt at 0, a comparison at equality): a piecewise
+                # symbolic derivative says nothing there; the derivative grid decides with one-sided difference quotients
+                out.append(Verdict("ok", "", None, None, sv, tags + ["switching-point"], False))
                 continue
             d = float(sv)
             impl = call(py_handle, grad_name(c["obj"]), c["x"], 0.0 if c["p"] is None else c["p"], c["m"])
